@@ -22,7 +22,7 @@ TraceNext ==
      ELSE LET r == Apply(live, dead, kidmap, bls, e.op)
               \* the contract says what a store may accept, not what it must: a store may refuse a generate / insert /
               \* sign the reference accepts, provided nothing changes (named action Refuse)
-              refuse == e.op.name \in {"generate", "insert", "sign", "generate_bbs"} /\ "ok" \in DOMAIN e.res /\ ~e.res.ok /\ e.post = J(live, dead, kidmap, bls)
+              refuse == e.op.name \in {"generate", "insert", "sign", "generate_bbs", "sign_bbs", "update_bbs"} /\ "ok" \in DOMAIN e.res /\ ~e.res.ok /\ e.post = J(live, dead, kidmap, bls)
           IN \/ /\ r.res = e.res
                 /\ J(r.live, r.dead, r.kidmap, r.bls) = e.post
                 /\ live' = r.live /\ dead' = r.dead /\ kidmap' = r.kidmap /\ bls' = r.bls
